@@ -65,6 +65,17 @@ def prop(pid, **kw):
 
 for _i in range(1, 21):
     prop("C%02d" % _i)
+# the Coq module the case files of a property import (must be rebuilt together with the theorems)
+EXEC_PROPS = ["C01", "C02", "C03", "C04", "C05", "C08", "C10", "C11", "C12", "C13", "C19"]
+for _p in PROPS:
+    if _p in EXEC_PROPS:
+        PROPS[_p]["extra_targets"] = ["ChkX.vo"]
+    elif os.path.exists(os.path.join(COQ, "Chk%s.v" % _p[1:])):
+        PROPS[_p]["extra_targets"] = ["Chk%s.vo" % _p[1:]]
+# C17 / C20 are decided about definitions REGENERATED from /repo/src by the translator on every run
+# (Chk17/Chk20 are explicit targets so that the case evaluator exists even when a re-proved table lemma breaks)
+prop("C17", translator=True, extra_targets=["Chk17.vo"])
+prop("C20", translator=True, extra_targets=["Chk20.vo"])
 
 
 class Lock:
